@@ -447,7 +447,7 @@ class Function:
             _LOGGER.error("run_coro: got exception %s", traceback.format_exc(-1))
         finally:
             if task in cls.task2cb:
-                for callback, info in cls.task2cb[task]["cb"].items():
+                for callback, info in list(cls.task2cb[task]["cb"].items()):
                     ast_ctx, args, kwargs = info
                     try:
                         await ast_ctx.call_func(callback, None, *args, **kwargs)
